@@ -1,4 +1,6 @@
 """Glue between the panic-audit engine and the rule modules (C11 find, C19/C20 xargs)."""
+import re
+
 from . import panic, prim
 
 BORROWS = ("borrow", "borrow_mut", "replace", "swap", "take", "replace_with")
@@ -175,18 +177,41 @@ def run(ctx, rule, roots, label, exclude_prefix=()):
             r = panic.t2(s)
             if r:
                 status, why = r
-        if status is None:
-            e = t3.get(s.key)
-            if e is not None:
-                used_t3.add(s.key)
-                ok, ctext = panic.check_condition(prog, s, e.get("condition", {"type": "none"}))
-                if ok:
-                    status = "T3"
-                    why = "%s [%s]" % (e["reason"], ctext)
-                else:
-                    why = "reviewed entry's side condition no longer holds: %s (was: %s)" % (ctext, e["reason"])
         s.status = status or "open"
         s.detail = why
+    # T3: reviewed entries. An entry is matched to a site of the same function, kind and description; the ordinal in
+    # the key is only a tie-breaker (it shifts when sites are added or removed before it): first the exact key, then
+    # any unused entry of the same base whose machine-checked side condition holds at the site.
+    def base(k):
+        # closure numbers shift as well when a closure is added or removed before this one
+        return re.sub(r"\{closure#\d+\}", "{closure}", re.sub(r"#\d+$", "", k))
+    by_base = {}
+    for k in t3:
+        by_base.setdefault(base(k), []).append(k)
+    open_sites = [s for s in sites if s.status == "open"]
+    for exact in (True, False):
+        for s in open_sites:
+            if s.status != "open":
+                continue
+            cands = [s.key] if exact else [k for k in by_base.get(base(s.key), []) if k not in used_t3]
+            last = None
+            for k in cands:
+                e = t3.get(k)
+                if e is None or k in used_t3:
+                    continue
+                ok, ctext = panic.check_condition(prog, s, e.get("condition", {"type": "none"}))
+                if ok:
+                    used_t3.add(k)
+                    s.status = "T3"
+                    s.detail = "%s [%s]" % (e["reason"], ctext)
+                    break
+                last = "reviewed entry's side condition no longer holds: %s (was: %s)" % (ctext, e["reason"])
+            if s.status == "open" and last and not exact:
+                s.detail = (s.detail + " / " if s.detail else "") + last
+    for s in sites:
+        fn = s.fn
+        status = None if s.status == "open" else s.status
+        why = s.detail
         counts[s.status] = counts.get(s.status, 0) + 1
         short_key = s.key.replace("findutils::find::matchers::", "").replace("findutils::find::", "").replace("findutils::xargs::", "x::")
         ctx.ob(rule, "site:" + short_key, status is not None,
